@@ -339,6 +339,11 @@ def envelope_pivots(exe, pe):
 
 
 def run(ctx):
+    ctx.assumptions += [
+        "gama-g3 linearises once: agreement with the generating coordinates is required up to the second-order term of the approximate coordinates' error (d^2 / leg, computed per network)",
+        'deflections of the vertical are zero in the model; azimuth observations are refused by the g3 parser and are outside the model',
+        'G3Run.v is a hand transliteration of Model::linearization (post-repair); G3Proofs.v states the same formulas over R',
+    ]
     ctx.check_proofs(extra_files=["G3Run"])
     bdir = enet.binaries(ctx)
     exe = solver.build_harness(ctx, sanitize=False)
